@@ -506,6 +506,53 @@ def r01_12_maybe_value(ctx):
     ctx.require_min("R01.12", 20)
 
 
+def r01_4e_flatten_traces(ctx):
+    import collections
+    from rules.graphcommon import GraphWorld, bounded_traces, flat_traces, reachable
+    from sa.minieval import Raised, Unknown, Sym
+
+    ctx.rule("R01.4e", "flattenBlocks preserves the program: for branch / loop / early-exit shaped graphs, listed in several orders (entry first), the flattened component list - labels, b / bz / bnz and fall-through interpreted by a small reference machine - has exactly the executions of the block graph (op sequences with the branch taken at every condition), every branch targets a label defined once, and no non-PyTeal exception escapes")
+    f = ctx.model.find_func("flattenBlocks", "pyteal.compiler.flatten")
+    ctx.analysed(f.fq)
+    shapes = {k: v for k, v in GRAPHS.items()}
+    shapes["conditional whose arms are both far away"] = {"c": (["int 1"], ["t", "e"]), "m": (["int 9", "return_"], []), "t": (["int 2", "return_"], []), "e": (["int 3", "return_"], [])}
+    shapes["loop with continue from a nested if"] = {"i": (["int 0", "store 1"], ["h"]), "h": (["load 1"], ["a", "x"]), "a": (["int 5"], ["b", "st"]), "b": (["int 6"], ["st", "w"]), "w": (["int 7", "pop"], ["st"]), "st": (["load 1", "store 1"], ["h"]), "x": (["int 1", "return_"], [])}
+    for name, spec in shapes.items():
+        names = list(spec)
+        orders = {"as written": names, "rest reversed": names[:1] + names[1:][::-1], "rest rotated": names[:1] + names[2:] + names[1:2]}
+        for oname, order in orders.items():
+            W = GraphWorld(ctx)
+            blocks = W.build(spec)
+            entry = blocks[names[0]]
+            for b in blocks.values():
+                b.attrs.setdefault("_sframes_container", None)
+            want = bounded_traces(entry)
+
+            def extra(e, me):
+                t = u(e)
+                if t == "defaultdict":
+                    return collections.defaultdict
+                if t == "LabelReference":
+                    return lambda nm: Sym(f"label:{nm}")
+                if t == "TealLabel":
+                    return lambda expr, ref, *a, **k: Sym("LABEL", attrs={"ref": ref})
+                raise Unknown()
+
+            construct = f"flattenBlocks[{name}; {oname}]"
+            try:
+                val, _ = W.run(f.node, {"blocks": [blocks[n] for n in order]}, extra, f.fq)
+            except Raised as r:
+                ctx.bad("R01.4e", construct, f"dies with {r.exc_text[:70]} on a well-formed block list", f.where)
+                continue
+            try:
+                got = flat_traces(list(val))
+            except AnalysisError as e:
+                ctx.bad("R01.4e", construct, str(e), f.where)
+                continue
+            ctx.check(got == want, "R01.4e", construct, f"executions differ: only in the graph {sorted(want - got)[:2]}, only in the flat code {sorted(got - want)[:2]}", f.where, fact={"executions": len(want), "components": len(val)})
+    ctx.require_min("R01.4e", 40)
+
+
 def r01_13_is_terminal(ctx):
     from rules.graphcommon import GraphWorld
     from sa.minieval import Raised
@@ -585,6 +632,7 @@ def run(ctx):
     r01_6_root_rebinding(ctx)
     r01_6e_normalize(ctx)
     r01_13_is_terminal(ctx)
+    r01_4e_flatten_traces(ctx)
     r01_7_replace_total(ctx)
     r01_8_api_ops(ctx)
     r01_10_routine_epilogue(ctx)
